@@ -15,7 +15,7 @@ import time
 
 VERIF = os.path.dirname(os.path.dirname(os.path.abspath(__file__)))
 REPO = "/repo"
-SCRATCH = "/tmp/seedrepo"   # scratch worktree of /repo the changes are applied to (VERIF_REPO points the checks at it)
+SCRATCH = os.environ.get("SEED_SCRATCH", "/tmp/seedrepo")   # scratch worktree of /repo the changes are applied to (VERIF_REPO points the checks at it)
 
 
 def sh(*a, **k):
